@@ -1,22 +1,21 @@
 ----------------------------- MODULE MtMachine -----------------------------
-(* C18 design models of minify.Mediatype (in-place whitespace removal and lower-casing outside
-   strings).
+(* C18 design models of minify.Mediatype (whitespace removal and lower-casing outside strings).
 
-   AsIs(s)   transcription of the helper as it is in the pinned tree: one pass over the buffer with
-             a write index j, the start of the pending (not yet copied) stretch, the position
-             lastString after the last closing quote and the inString flag; lower-casing happens in
-             ranges [lastString, i) when a quote opens and at the end.  Go slices are 0-based and
-             half-open; sequences here are 1-based, so b[lo:hi] is positions lo+1..hi.
-   Fixed(s)  the proposed repair: lower-case byte by byte while scanning, honour quoted-pairs.
-   Known(s)  the narrow input constructs of the pinned findings K6a / K6b (the same predicates
-             the generator uses to leave those inputs out).
+   AsIs(s)    transcription of the helper of the current tree (fix commit 0042ee0): one pass with a write
+              index, blanks outside strings dropped, letters outside strings lower-cased byte by byte,
+              a backslash inside a string protects the next byte.
+   OldAsIs(s) transcription of the helper BEFORE the fix, kept as a wrong-design guard: one pass with a
+              write index j, the start of the pending (not yet copied) stretch, the position lastString
+              after the last closing quote and the inString flag; lower-casing in ranges [lastString, i)
+              when a quote opens and at the end.  Go slices are 0-based and half-open; sequences here
+              are 1-based, so b[lo:hi] is positions lo+1..hi.
+   Known(s)   the narrow input constructs K6a / K6b on which the old design was wrong.
 
    Checked by TLC over every string of the generator (MediatypeGen):
-     AsIsIndexSafe     the index arithmetic of the in-place copy never leaves the buffer and never
-                       copies from a stretch it has already overwritten
-     AsIsOKOutsideKnown  wherever the as-is design violates MediatypeOK the input is a Known
-                       construct - i.e. the exclusions cover every defect of the design in the bound
-     FixedOK           the repaired design satisfies MediatypeOK on every string, Known or not *)
+     AsIsOK              the current design satisfies MediatypeOK on every string (nothing is excluded)
+     OldIndexSafe        the index arithmetic of the old in-place copy never left the buffer
+     OldWrongOnlyOnKnown the old design violates MediatypeOK exactly within the Known constructs
+   and, as ASSUMEs below, the relation still rejects the old design on the witnesses of K6a and K6b. *)
 EXTENDS DataUri
 
 LowerRange(b, lo, hi) == [k \in 1..Len(b) |-> IF k > lo /\ k <= hi THEN Lower(b[k]) ELSE b[k]]
@@ -24,7 +23,7 @@ LowerRange(b, lo, hi) == [k \in 1..Len(b) |-> IF k > lo /\ k <= hi THEN Lower(b[
 CopyRange(b, dst, lo, hi) ==
   [k \in 1..Len(b) |-> IF k - 1 >= dst /\ k - 1 < dst + (hi - lo) THEN b[lo + (k - 1 - dst) + 1] ELSE b[k]]
 
-AsIsRun(s) ==
+OldRun(s) ==
   LET n == Len(s)
       step(st, k) ==                                   \* k = 1-based position, i = k - 1 the Go index
         LET i == k - 1  c == st.b[k] IN
@@ -47,10 +46,10 @@ AsIsRun(s) ==
           [out |-> SubSeq(LowerRange(b1, e.lastString, j1), 1, j1),
            safe |-> e.safe /\ e.j <= e.start /\ e.lastString <= j1 /\ j1 <= n]
      ELSE [out |-> LowerRange(e.b, e.lastString, n), safe |-> e.safe /\ e.lastString <= n]          \* A6 nothing removed
-AsIs(s) == AsIsRun(s).out
+OldAsIs(s) == OldRun(s).out
 
-\* proposed repair: one pass, lower-case as you go, a backslash inside a string protects the next byte
-Fixed(s) ==
+\* the current helper: one pass, lower-case as you go, a backslash inside a string protects the next byte
+AsIs(s) ==
   FoldLeft(LAMBDA st, c :
              IF st.mode = 0 /\ IsWs(c) THEN st                                                      \* F1 drop blank
              ELSE IF st.mode = 0 THEN [mode |-> IF c = 34 THEN 1 ELSE 0, acc |-> Append(st.acc, Lower(c))]   \* F2 outside
@@ -58,7 +57,7 @@ Fixed(s) ==
              ELSE [mode |-> 1, acc |-> Append(st.acc, c)],                                          \* F4 quoted-pair
            [mode |-> 0, acc |-> <<>>], s).acc
 
-\* ---- the constructs of the pinned findings, decided on the input only
+\* ---- the constructs of the fixed findings K6a / K6b, decided on the input only
 Modes(s) ==   \* mode on entry of every position (0 outside, 1 inside a quoted string, 2 after a backslash inside)
   FoldLeft(LAMBDA st, c : [mode |-> QStep(st.mode, c), acc |-> Append(st.acc, st.mode)], [mode |-> 0, acc |-> <<>>], s).acc
 \* K6b: an escaped quote inside a quoted string
@@ -79,4 +78,10 @@ K6a(s) ==
                [removed |-> 0, close |-> 0, blank |-> TRUE, hit |-> FALSE], Idx(s))
   IN r.hit
 Known(s) == K6b(s) \/ K6a(s)
+
+\* ---- the old design is still rejected on the witnesses of the fixed findings, the current one accepted
+W_K6a == <<97,47,98,32,59,32,120,61,34,65,66,34,59,121,61,34,67,34>>        \* a/b ; x="AB";y="C"
+W_K6b == <<97,47,98,59,120,61,34,92,34,65,34>>                              \* a/b;x="\"A"
+ASSUME /\ ~MediatypeOK(W_K6a, OldAsIs(W_K6a)) /\ MediatypeOK(W_K6a, AsIs(W_K6a)) /\ Known(W_K6a)
+       /\ ~MediatypeOK(W_K6b, OldAsIs(W_K6b)) /\ MediatypeOK(W_K6b, AsIs(W_K6b)) /\ Known(W_K6b)
 =============================================================================
